@@ -639,6 +639,9 @@ def deref_facts(e, skip=("self", "cls")) -> list[tuple[str, bool]]:
     return out
 
 
+SAME = "__same__"
+
+
 @lru_cache(maxsize=None)
 def _subst_key(key: str, vs: str, t: str):
     """the fact key with every occurrence of the expression `vs` replaced by `t`; None if it does not occur"""
@@ -863,6 +866,9 @@ class Explorer:
         vs = ast.unparse(subst(v, self.aliases))
         if vs == t:
             return out
+        if isinstance(v, ast.Attribute) and not any(isinstance(x, (ast.Call, ast.Subscript)) for x in ast.walk(v)):
+            # t is a snapshot of the field: until either is rewritten (or the task suspends) a test on t is a test on the field
+            out.append((f"{SAME}({t}, {vs})", True))
         for k, p in facts:
             if k == EXC:
                 continue
@@ -922,7 +928,14 @@ class Explorer:
                             f2c = facts
                         else:
                             f2 = self.kill(facts, node)  # walrus targets
-                            f2c = _close(set(f2) | {(k, pol)} | set(self._deref(node)))
+                            extra = set()
+                            for fk, fp in f2:
+                                if fp is True and fk.startswith(SAME + "("):
+                                    t_, _, vs_ = fk[len(SAME) + 1:-1].partition(", ")
+                                    nk = _subst_key(k, t_, vs_)
+                                    if nk is not None and nk != k:
+                                        extra.add((nk, pol))
+                            f2c = _close(set(f2) | {(k, pol)} | extra | set(self._deref(node)))
                             if f2c is None:
                                 continue
                         f2 = f2c
